@@ -129,6 +129,12 @@ def handle : List String → String
     match pCfg cfg, pStr name, pStr loc with
     | some c, some n, some l => sExcept sCfg (setParent c n l)
     | _, _, _ => "bad-op"
+  | ["setpf", cfg, name, loc] =>
+    -- `set_parent`, then the configuration as `from_file` reads what `write_to_file` wrote
+    match pCfg cfg, pStr name, pStr loc with
+    | some c, some n, some l =>
+      sExcept (fun c' => match cfgRereadAll c' with | some c'' => sCfg c'' | none => "E:Value") (setParent c n l)
+    | _, _, _ => "bad-op"
   | ["getp", cfg, name] =>
     match pCfg cfg, pStr name with
     | some c, some n => sExcept sOptStr (getParentLocation c n)
@@ -137,6 +143,18 @@ def handle : List String → String
     match pCfg cfg, pStr name with
     | some c, some n => sExcept sOptStr (getParentLocationLegacy c n)
     | _, _ => "bad-op"
+  | ["cfgfmt", b] => match pBytes b with | some b => sBytes (cfgFormat b) | none => "bad-op"
+  | ["cfgparse", b] =>
+    match pBytes b with
+    | some b => (match cfgParse b with | some r => sBytes r | none => "E:Value")
+    | none => "bad-op"
+  | ["cfgreread", b] =>
+    match pBytes b with
+    | some b => (match cfgReread b with | some r => sBytes r | none => "E:Value")
+    | none => "bad-op"
+  | ["cfgsafe", b] => match pBytes b with | some b => showBool (cfgValueSafe b) | none => "bad-op"
+  | ["subesc", b] => match pBytes b with | some b => sBytes (subsecEscape b) | none => "bad-op"
+  | ["subunesc", b] => match pBytes b with | some b => sBytes (subsecUnescape b) | none => "bad-op"
   | ["consts"] =>
     " ".intercalate [sBytes rootId, sBytes fileIdPrefix, sBytes nullRevision, sBytes zeroSha, sBytes headRef,
       sBytes headsPrefix, sBytes tagsPrefix, ";".intercalate (knownMappings.map sBytes),
